@@ -264,3 +264,8 @@ Definition c01_case (d : dialect) (op_text : N -> str) (ld : Lexer.dialect) (u :
     | _ => 8
     end) +
    (if ctoks_eqb (content (yield e)) (content (ptoks e)) then 0 else 16))%N.
+
+(** C05 variant: printer model vs Display (bit 1) and content of the printed tokens (bit 16) *)
+Definition c05_case (op_text : N -> str) (e : expr) (text : str) : N :=
+  ((if str_eqb (pp op_text e) text then 0 else 1) +
+   (if ctoks_eqb (content (yield e)) (content (ptoks e)) then 0 else 16))%N.
